@@ -190,6 +190,15 @@ def lib_dataframe(ev, a, k, n, mod):
                     raise ev.err("DataFrame column name is not a constant string", n, mod)
                 cols[kk] = as_sym(vv)
             return DFV(sp.Symbol("NSEQ", positive=True, integer=True), cols)
+        if isinstance(data, DictV) and data.d and all(isinstance(kk, str) for kk in data.d) and \
+                all(isinstance(vv, Tup) and getattr(vv, "elementwise", False) and len(vv.items) == 1 for vv in data.d.values()):
+            # {"col": [f(row) for row in rows], ...}: one elementwise column each
+            nrows = sp.Symbol("NSEQ", positive=True, integer=True)
+            if isinstance(index, RangeV):
+                nrows = sp.Integer(index.hi - index.lo)
+            elif isinstance(index, SymRange):
+                nrows = index.n
+            return DFV(nrows, {kk: as_sym(vv.items[0]) for kk, vv in data.d.items()}, index)
         raise ev.err("DataFrame(data) of this shape is not modelled", n, mod)
     if isinstance(index, RangeV):
         nrows = sp.Integer(index.hi - index.lo)
@@ -357,7 +366,7 @@ DF_LIB = {
 }
 
 
-lib_dataframe.kw = {"index"}
+lib_dataframe.kw = {"index", "dtype"}
 lib_linspace.kw = {"num"}
 lib_to_numpy.kw = {"copy"}
 lib_df_to_string.kw = {"index", "header"}
